@@ -108,6 +108,9 @@ func propC06(w *World, r *Report) {
 		{"StartRecording: suppressed non-failing start emits exactly one event", "StartRecording", func(cx *Ctx) (bool, bool) {
 			return cx.Ghosts["start:wrapped"] == 0 && cx.Ghosts["opened:wrapped"] == 0 && cx.Ghosts["ret0:nonnil"] == 0, cx.Ghosts["events"] == 1
 		}},
+		{"StartRecording: a start that fails in the wrapped recorder is not a throttle event", "StartRecording", func(cx *Ctx) (bool, bool) {
+			return cx.Ghosts["ret0:nonnil"] == 1, cx.Ghosts["events"] == 0
+		}},
 		{"StartRecording: forwarded start emits none", "StartRecording", func(cx *Ctx) (bool, bool) {
 			return cx.Ghosts["opened:wrapped"] == 1, cx.Ghosts["events"] == 0
 		}},
@@ -153,75 +156,45 @@ func propC06(w *World, r *Report) {
 	checkThrottlePassThrough(w, r, runs, "X4")
 }
 
-// X4: provenance of the arguments handed to the wrapped recorder.
+// X4: provenance of the arguments handed to the wrapped recorder, decided on the fix-point with provenance
+// tokens: the client's StartRecording arguments are tagged (background, threshold), what an earlier
+// StartRecording call stored in the throttler's fields turns ".stale" when a new StartRecording call begins, the
+// WriteFrame argument is tagged (frame). Independent of how the code moves the values around.
 func checkThrottlePassThrough(w *World, r *Report, runs *throttleRuns, rule string) {
-	c := runs.model.C
-	e := newTermEnv(w)
-	e.useCtor(c.T, c.Ctor)
-	fieldsFromStart := map[string]string{} // field name -> which Start parameter it remembers
-	startFn := findMethod(w.Prog, c.T, "StartRecording")
-	if startFn == nil {
-		r.Unknown(rule, "StartRecording", "-", "method not found")
-		return
-	}
-	for _, b := range startFn.Blocks {
-		for _, in := range b.Instrs {
-			if st, ok := in.(*ssa.Store); ok {
-				if fa, ok := st.Addr.(*ssa.FieldAddr); ok && isPtrTo(fa.X.Type(), c.T) {
-					fieldsFromStart[c.fieldName(fa.Field)] = e.termOf(st.Val).String()
-				}
-			}
-		}
-	}
-	for _, ev := range runs.fault.sortedEvents() {
+	run := runs.fault
+	nStart, nWrite := 0, 0
+	for _, ev := range run.sortedEvents() {
 		if !strings.HasPrefix(ev.Kind, "sink:") {
 			continue
 		}
 		call := ev.Instr.(*ssa.Call)
-		fn := call.Parent()
 		m := strings.TrimPrefix(ev.Kind, "sink:")
+		trace := ""
+		if len(ev.Ctxs) > 0 {
+			trace = ev.Ctxs[0].Trace
+		}
 		switch m {
 		case "StartRecording":
-			// args must be the enclosing function's parameters in order; each caller passes either Start's params or the remembered fields
-			for i, a := range call.Call.Args {
-				p, isParam := a.(*ssa.Parameter)
-				okp := isParam && p == fn.Params[len(fn.Params)-len(call.Call.Args)+i]
-				r.Check(okp, rule, fmt.Sprintf("wrapped StartRecording argument %d is the caller's argument %d", i, i), w.InstrPos(call), e.termOf(a).String())
+			nStart++
+			var ens []string
+			for en := range ev.Entries {
+				ens = append(ens, en)
 			}
-			// callers of fn inside the component
-			for caller := range w.AllFuncs {
-				for _, b := range caller.Blocks {
-					for _, in := range b.Instrs {
-						cl, ok := in.(*ssa.Call)
-						if !ok || cl.Call.StaticCallee() != fn {
-							continue
-						}
-						args := cl.Call.Args[1:]
-						for i, a := range args {
-							t := e.termOf(a).String()
-							want1 := e.termOf(startFn.Params[1+i]).String()
-							okp := false
-							detail := t
-							if caller == startFn {
-								okp = t == want1
-							} else {
-								// must be a field that remembers Start's parameter i
-								for fname, src := range fieldsFromStart {
-									if t == "throttle.ThrottledRecorder."+fname+"@recv:throttle.ThrottledRecorder" && src == want1 {
-										okp = true
-										detail += " (remembers " + src + ")"
-									}
-								}
-							}
-							r.Check(okp, rule, fmt.Sprintf("%s passes start argument %d unchanged to %s", caller.Name(), i, fn.Name()), w.InstrPos(cl), detail)
-						}
-					}
-				}
+			sort.Strings(ens)
+			construct := fmt.Sprintf("wrapped StartRecording at %s (client calls %s) receives the background and threshold of the current trigger", callOrdinal(call, "StartRecording"), strings.Join(ens, "+"))
+			if ev.Arg == "background,threshold" {
+				r.Pass(rule, construct, w.InstrPos(call), fmt.Sprintf("%d contexts", len(ev.Ctxs)))
+			} else {
+				r.Fail(rule, construct, w.InstrPos(call), "the file is (re)started with arguments ["+ev.Arg+"] instead of the trigger's [background,threshold] ('?' = not the client's value, '.stale' = remembered from an earlier trigger): the stored background frame / threshold would not be the ones in force at the trigger", trace)
 			}
 		case "WriteFrame":
-			a := call.Call.Args[0]
-			p, isParam := a.(*ssa.Parameter)
-			r.Check(isParam && fn.Name() == "WriteFrame" && p == fn.Params[1], rule, "wrapped WriteFrame receives the client's frame", w.InstrPos(call), e.termOf(a).String())
+			nWrite++
+			construct := fmt.Sprintf("wrapped WriteFrame at %s receives the client's frame", callOrdinal(call, "WriteFrame"))
+			if ev.Arg == "frame" {
+				r.Pass(rule, construct, w.InstrPos(call), fmt.Sprintf("%d contexts", len(ev.Ctxs)))
+			} else {
+				r.Fail(rule, construct, w.InstrPos(call), "forwarded frame is ["+ev.Arg+"]", trace)
+			}
 		case "StopRecording":
 			okc, bad, _, n := allCtx([]*Event{ev}, func(cx *Ctx) bool { return cx.Sinks[0] == 1 })
 			if okc {
@@ -231,37 +204,17 @@ func checkThrottlePassThrough(w *World, r *Report, runs *throttleRuns, rule stri
 			}
 		}
 	}
-	r.Check(len(fieldsFromStart) >= 2, rule, "StartRecording remembers background and threshold for the restart", "-", fmt.Sprint(fieldsFromStart))
-	// ... on EVERY non-failing path (forwarded as well as suppressed start): a later mid-trigger restart
-	// must open the file with the background and threshold of this trigger
-	pe := newTermEnv(w)
-	paths, complete := enumPaths(pe, startFn, 64)
-	nOK := 0
-	okAll := complete
-	for _, p := range paths {
-		if p.Term(pe, p.Ret.Results[0]).String() != "nil" {
-			continue
-		}
-		nOK++
-		stored := map[string]bool{}
-		for _, in := range p.Instrs {
-			if st, ok := in.(*ssa.Store); ok {
-				if fa, ok := st.Addr.(*ssa.FieldAddr); ok && isPtrTo(fa.X.Type(), c.T) {
-					v := p.Term(pe, st.Val).String()
-					for i := 1; i < len(startFn.Params); i++ {
-						if v == pe.termOf(startFn.Params[i]).String() {
-							stored[v] = true
-						}
-					}
-				}
+	// both a forwarded start (from StartRecording) and a mid-trigger restart (from WriteFrame) must exist
+	entries := map[string]bool{}
+	for _, ev := range run.sortedEvents() {
+		if ev.Kind == "sink:StartRecording" {
+			for en := range ev.Entries {
+				entries[en] = true
 			}
 		}
-		if len(stored) != len(startFn.Params)-1 {
-			okAll = false
-			r.Fail(rule, "StartRecording path ["+strings.Join(guardStrings(p.Conds), " ∧ ")+"] remembers both start arguments", w.InstrPos(p.Ret), "a successful StartRecording returns without remembering the trigger's background/threshold: a restart after a throttle cut would write stale or zero values into the new file", "")
-		}
 	}
-	r.Check(okAll && nOK >= 2, rule, "every non-failing StartRecording path remembers the trigger's background and threshold", w.Pos(startFn.Pos()), fmt.Sprintf("%d non-failing paths", nOK))
+	r.Check(entries["StartRecording"] && entries["WriteFrame"], rule, "files are started from StartRecording and re-started mid-trigger from WriteFrame", "-", fmt.Sprint(entries))
+	r.Check(nStart >= 1 && nWrite >= 1, "G4", "wrapped start/write events observed", "-", fmt.Sprintf("%d/%d", nStart, nWrite))
 	// Stop forwards whenever recording: exits of StopRecording entered with recording=true have stopped the wrapped recorder
 	var bad *Ctx
 	n := 0
